@@ -157,9 +157,8 @@ Definition hash_generated (o : copts) : bool :=
 Fixpoint has_dup (l : list string) : bool :=
   match l with [] => false | x :: r => mem_str x r || has_dup r end.
 
-Definition capplies (r : rule) (s : spec) : bool :=
+Definition capplies_at (a : bool) (r : rule) (s : spec) : bool :=
   let o := s_o s in
-  let a := eff_auto s in
   match r with
   | CR_define_frozen_base_hooks => is_def (o_api o) && o_base_frozen o && had_on_setattr o
   | CR_cmp_mix =>
@@ -184,6 +183,9 @@ Definition capplies (r : rule) (s : spec) : bool :=
   | CR_dup_alias => has_dup (map alias_of (filter a_init (fields s a)))
   | _ => false
   end.
+
+(** The rows are read with the collection mode [define] infers. *)
+Definition capplies (r : rule) (s : spec) : bool := capplies_at (eff_auto s) r s.
 
 Definition expr_rules : list rule := [CR_cmp_mix; CR_order_no_eq].
 
